@@ -139,12 +139,17 @@ def SameRec : Schema → List Val → List Val → Prop
 /-- one trimmed line: written on the field's own line and read back byte for byte -/
 def textLine (d : Bytes) : Bool := Str.trimSpace d = d && !d.contains 10
 
-/-- every field has a well-formed name, is not `multiline`, and renders as one trimmed
-    line -/
+/-- what a field may render to: one trimmed line; or, for a list whose strip set has the
+    newline (so that the newline the reader appends is trimmed away again), any sequence of
+    text lines in the sense of C08 (`textValue`) -/
+def textField (f : FieldDesc) (d : Bytes) : Bool :=
+  textLine d || (isSlice f.kind && f.strip.contains 10 && Spec.Deb822Write.textValue d)
+
+/-- every field has a well-formed name, is not `multiline`, and renders as text -/
 def textRec (s : Schema) (r : List Val) : Bool :=
   (s.zip r).all (fun fv => Spec.Deb822.wfName fv.1.key && !fv.1.multiline &&
     match marshalValue 16 fv.1.kind fv.1.delim fv.2 with
-    | .ok d => textLine d
+    | .ok d => textField fv.1 d
     | .error _ => true)
 
 /-- some named field is written: it is required or its rendering is not empty -/
